@@ -34,6 +34,80 @@ def split_goal(g):
     return [g]
 
 
+_HQ = {}
+
+
+def has_quantifier(e):
+    k = e.get_id()
+    r = _HQ.get(k)
+    if r is None:
+        if z3.is_quantifier(e):
+            r = True
+        elif z3.is_app(e):
+            r = any(has_quantifier(c) for c in e.children())
+        else:
+            r = False
+        _HQ[k] = r
+    return r
+
+
+_skc = [0]
+
+
+def _base(name):
+    return name.split('!')[0]
+
+
+def skolemize(hyp, goal):
+    """goal `forall xs. P` is valid iff P[sk] is, for fresh constants sk.  Quantified hypotheses whose bound
+    variables carry the same base names as the goal's are additionally instantiated at those constants
+    (any instance of a hypothesis is a consequence of it: sound; it only spares the solver the search)."""
+    sk = {}
+    g = goal
+    ante = []
+    while True:
+        if z3.is_implies(g):
+            # hyps |- A => B   iff   hyps, A |- B
+            ante.append(g.arg(0)); g = g.arg(1); continue
+        if z3.is_quantifier(g) and g.is_forall():
+            n = g.num_vars()
+            cs = []
+            for i in range(n):
+                _skc[0] += 1
+                c = z3.Const('%s!sk%d' % (_base(g.var_name(i)), _skc[0]), g.var_sort(i))
+                cs.append(c); sk.setdefault(_base(g.var_name(i)), c)
+            g = z3.substitute_vars(g.body(), *reversed(cs))
+            continue
+        break
+    hyp = list(hyp) + ante
+    if not sk:
+        return hyp, g
+    extra = []
+
+    def instantiate(h, depth=0):
+        q = h; guards = []
+        while z3.is_implies(q):
+            guards.append(q.arg(0)); q = q.arg(1)
+        if z3.is_and(q) and depth > 0:
+            for c in q.children():
+                instantiate(z3.Implies(z3.And(*guards), c) if guards else c, depth)
+            return
+        if not (z3.is_quantifier(q) and q.is_forall()):
+            return
+        names = [_base(q.var_name(i)) for i in range(q.num_vars())]
+        if not all(nm in sk and sk[nm].sort() == q.var_sort(i) for i, nm in enumerate(names)):
+            return
+        inst = z3.substitute_vars(q.body(), *reversed([sk[nm] for nm in names]))
+        full = z3.Implies(z3.And(*guards), inst) if guards else inst
+        extra.append(full)
+        if depth < 3 and has_quantifier(inst):
+            instantiate(full, depth + 1)
+
+    for h in hyp:
+        instantiate(h)
+    return list(hyp) + extra, g
+
+
 def to_smt2(hyp, goal):
     s = z3.Solver()
     for h in hyp:
@@ -80,24 +154,52 @@ def extract_model(s, m):
     return out
 
 
+def _z3_try(smt2, timeout, cfg, want_model):
+    s = z3.Solver()
+    for k, v in cfg.items():
+        s.set(k, v)
+    s.set('timeout', int(timeout))
+    s.from_string(smt2)
+    r = s.check()
+    model = None; reason = ''
+    if r == z3.sat and want_model:
+        try:
+            model = extract_model(s, s.model())
+        except Exception as e:      # model extraction must never turn into a verdict
+            reason = 'model extraction failed: %r' % (e,)
+    if r == z3.unknown:
+        reason = s.reason_unknown()
+    return str(r), model, reason
+
+
 def solve_one(job):
-    """job = (id, smt2, timeout_ms, want_model) -> dict"""
-    oid, smt2, timeout, want_model = job
+    """job = (id, smt2, timeout_ms, want_model[, smt2_relaxed]) -> dict.
+    Portfolio, first `unsat` wins: (1) relaxation without quantified hypotheses (sound for proving: fewer
+    hypotheses), (2) full problem, default z3, (3) full problem, E-matching only, (4) cvc5, (5) z3 4.8.
+    `sat` is only accepted for the full problem."""
+    if job[0] == 'cover':
+        return cover_one(job)
+    oid, smt2, timeout, want_model = job[:4]
+    relaxed = job[4] if len(job) > 4 else None
     t0 = time.time()
-    res = dict(id=oid, status='unknown', backend='z3-%s' % z3.get_version_string(), time=0.0, model=None, reason='')
+    ver = 'z3-%s' % z3.get_version_string()
+    res = dict(id=oid, status='unknown', backend=ver, time=0.0, model=None, reason='')
     try:
-        s = z3.Solver()
-        s.set('timeout', timeout)
-        s.from_string(smt2)
-        r = s.check()
-        res['status'] = str(r)
-        if r == z3.sat and want_model:
-            try:
-                res['model'] = extract_model(s, s.model())
-            except Exception as e:      # model extraction must never turn into a verdict
-                res['reason'] = 'model extraction failed: %r' % (e,)
-        if r == z3.unknown:
-            res['reason'] = s.reason_unknown()
+        if relaxed:
+            r, _, _ = _z3_try(relaxed, min(timeout, 3000), {}, False)
+            if r == 'unsat':
+                res.update(status='unsat', backend=ver + ' (quantifier-free relaxation)', time=time.time() - t0)
+                return res
+        if 'forall' in smt2:
+            # E-matching only: fails fast when the triggers do not lead to a proof (never answers sat)
+            # (several seeds: trigger-based proofs are quick when they succeed but depend on the instantiation order)
+            for seed in (0, 1, 2, 3):
+                r2, _, _ = _z3_try(smt2, max(2000, min(4000, timeout // 3)), {'smt.mbqi': False, 'smt.auto_config': False, 'smt.random_seed': seed}, False)
+                if r2 == 'unsat':
+                    res.update(status='unsat', backend=ver + ' (e-matching only)', time=time.time() - t0)
+                    return res
+        r, model, reason = _z3_try(smt2, timeout, {}, want_model)
+        res.update(status=r, model=model, reason=reason)
     except Exception as e:
         res['status'] = 'error'; res['reason'] = repr(e)
     res['time'] = time.time() - t0
@@ -106,13 +208,30 @@ def solve_one(job):
         for backend in ('cvc5', 'z3old'):
             r2 = run_cli(backend, smt2, timeout)
             if r2 in ('unsat', 'sat'):
-                if r2 == 'sat' and res.get('model') is None:
-                    # a `sat` without a model from the python API is reported as such (no-failing-input-found path)
-                    pass
                 res['status'] = r2; res['backend'] = {'cvc5': 'cvc5-1.0.3', 'z3old': 'z3-4.8.12'}[backend]
                 break
         res['time'] = time.time() - t0
     return res
+
+
+def cover_one(job):
+    """vacuity guard: are the hypotheses at this point satisfiable?  `unsat` = contradictory contract.
+    The quantifier-free part is checked first (its unsatisfiability already proves a contradiction)."""
+    _, cid, smt2, relaxed = job
+    t0 = time.time()
+    status = 'unknown'
+    try:
+        if relaxed:
+            r, _, _ = _z3_try(relaxed, 3000, {}, False)
+            if r == 'unsat':
+                return dict(id=cid, status='unsat', time=time.time() - t0, backend='z3', model=None, reason='quantifier-free part contradictory')
+            status = 'sat-relaxed' if r == 'sat' else 'unknown'
+        r, _, _ = _z3_try(smt2, 1500, {}, False)
+        if r in ('sat', 'unsat'):
+            status = r
+    except Exception as e:
+        return dict(id=cid, status='unknown', time=time.time() - t0, backend='z3', model=None, reason=repr(e))
+    return dict(id=cid, status=status, time=time.time() - t0, backend='z3', model=None, reason='')
 
 
 def run_cli(backend, smt2, timeout_ms):
@@ -144,6 +263,7 @@ _POOL = None
 
 
 def pool():
+    """plain fork pool for generation tasks (no solver calls that may ignore their timeout)"""
     global _POOL
     if _POOL is None:
         ctx = mp.get_context('fork')
@@ -157,9 +277,81 @@ def close_pool():
         _POOL.terminate(); _POOL = None
 
 
+def _worker(conn):
+    while True:
+        try:
+            job = conn.recv()
+        except EOFError:
+            return
+        if job is None:
+            return
+        try:
+            conn.send(solve_one(job))
+        except Exception as e:
+            conn.send(dict(id=job[0], status='error', backend='', time=0.0, model=None, reason=repr(e)))
+
+
+def hard_limit(job):
+    if job[0] == 'cover':
+        return 12
+    # portfolio: relaxed 3s + full T + e-matching T/2 + cvc5 T + z3old T (+ process start-up), then slack
+    return 3 + 16 + job[2] / 1000.0 * 3.2 + 25
+
+
 def solve_all(jobs):
+    """Solve every job with a hard wall-clock limit per job: z3 does not always honour its own timeout
+    (nonlinear preprocessing), so each worker is a process that is killed and replaced when it overruns;
+    the job is then `unknown` (never a verdict)."""
     if not jobs:
         return []
-    if NPROC <= 1 or len(jobs) == 1:
-        return [solve_one(j) for j in jobs]
-    return pool().map(solve_one, jobs, chunksize=max(1, min(8, len(jobs) // (NPROC * 4) or 1)))
+    from multiprocessing.connection import wait
+    ctx = mp.get_context('fork')
+    n = max(1, min(NPROC, len(jobs)))
+    results = {}
+    pending = list(range(len(jobs)))[::-1]
+    workers = []
+
+    def spawn():
+        a, b = ctx.Pipe()
+        p = ctx.Process(target=_worker, args=(b,), daemon=True)
+        p.start(); b.close()
+        return dict(p=p, conn=a, job=None, t0=0.0)
+
+    def assign(w):
+        if pending:
+            j = pending.pop(); w['job'] = j; w['t0'] = time.time(); w['conn'].send(jobs[j])
+        else:
+            w['job'] = None
+
+    for _ in range(n):
+        w = spawn(); workers.append(w); assign(w)
+    while any(w['job'] is not None for w in workers):
+        busy = [w for w in workers if w['job'] is not None]
+        ready = wait([w['conn'] for w in busy], timeout=1.0)
+        now = time.time()
+        for w in busy:
+            if w['conn'] in ready:
+                try:
+                    r = w['conn'].recv()
+                except (EOFError, OSError):
+                    r = dict(id=jobs[w['job']][0], status='unknown', backend='', time=now - w['t0'], model=None, reason='solver process died')
+                    w['p'].kill(); nw = spawn(); w.update(nw)
+                results[w['job']] = r
+                assign(w)
+            elif now - w['t0'] > hard_limit(jobs[w['job']]):
+                j = w['job']
+                w['p'].kill(); w['p'].join(1)
+                results[j] = dict(id=jobs[j][0], status='unknown', backend='', time=now - w['t0'], model=None, reason='hard time limit (solver ignored its timeout)')
+                nw = spawn(); w.update(nw)
+                assign(w)
+    for w in workers:
+        try:
+            w['conn'].send(None)
+        except Exception:
+            pass
+    t_end = time.time() + 0.5
+    for w in workers:
+        w['p'].join(max(0.0, t_end - time.time()))
+        if w['p'].is_alive():
+            w['p'].kill()
+    return [results[i] for i in range(len(jobs))]
